@@ -704,9 +704,12 @@ func isUpdateDelete(c *simapi.Call) bool {
 	return strings.Contains(c.Callsite, ".deletePods.")
 }
 
+// invFaulted: the invocation's view is unreliable (a read was refused, or the process was stopped and its later
+// calls are void). Refused or unanswered writes do not count: what a sync attempts is bounded like what it
+// achieves.
 func invFaulted(inv *simapi.Invocation) bool {
 	for _, c := range inv.Calls {
-		if c.Fault != simapi.NoFault || c.Outcome == simapi.OutVoid {
+		if c.Outcome == simapi.OutVoid || (c.Fault != simapi.NoFault && !c.IsWrite()) || c.Fault == simapi.StopBefore || c.Fault == simapi.StopAfter {
 			return true
 		}
 	}
